@@ -4,6 +4,7 @@ annealing with the Python and the C kernel) run on small placement problems; eve
 placement / raised exception judged by an independent oracle written from the property statement."""
 import itertools
 import random
+import signal
 import time
 import warnings
 from collections import OrderedDict
@@ -79,6 +80,14 @@ def _vsets(thorough):
             seen.add(v)
             res.append(v)
     return res
+
+
+class _TooLong(BaseException):
+    pass
+
+
+def _too_long(*a):
+    raise _TooLong()
 
 
 def _shapes():
@@ -289,7 +298,17 @@ def run(tier="quick", seed=0):
                 args = mk()
                 random.seed(0 if sd is None else sd)
                 try:
-                    result = call(args, sd)
+                    # a placer call on these small problems takes milliseconds; one that has not returned after 60 s of
+                    # process time does not return (the annealer's stop condition can become unreachable)
+                    signal.signal(signal.SIGVTALRM, _too_long)
+                    signal.setitimer(signal.ITIMER_VIRTUAL, 60.0)
+                    try:
+                        result = call(args, sd)
+                    finally:
+                        signal.setitimer(signal.ITIMER_VIRTUAL, 0)
+                except _TooLong:
+                    record("does_not_return", "no result and no exception after 60 s of process time (calls on problems of this size take milliseconds)", p, name, sd)
+                    continue
                 except (InsufficientResourceError, InvalidConstraintError) as e:
                     st["documented_error"] += 1
                     if must:
